@@ -59,6 +59,16 @@ def run_impl(case):
             if case.get("via") == "values_arg":
                 ln = Line(fs, values=vals, storage=case["storage"])
                 return {"out": codec.enc_data(ln.write(vals))}
+            if case.get("via") == "fields_setter":
+                # the Line object first served a wider layout (and wrote with it), then its
+                # layout is replaced through the public setter
+                from cfinterface.components.literalfield import LiteralField
+
+                wide = [LiteralField(7, 0), LiteralField(5, max([f.ending_position for f in fs] + [0]) + 11)]
+                ln = Line(wide, storage=case["storage"])
+                ln.write(["a", "b"])
+                ln.fields = fs
+                return {"out": codec.enc_data(ln.write(vals))}
             ln = Line(fs, storage=case["storage"])
             return {"out": codec.enc_data(ln.write(vals))}
         if m == "defaults":
@@ -280,7 +290,7 @@ def random_layout(rng, binary=False):
         "fields": [fields[i] for i in order],
         "values": [values[i] for i in order],
         "storage": "BINARY" if binary else rng.choice(["", "TEXT"]),
-        "via": rng.choice(["write_arg", "values_arg"]),
+        "via": rng.choice(["write_arg", "values_arg", "fields_setter"]),
     }
 
 
